@@ -76,7 +76,7 @@ def gen_case(rng, boundary=None):
     """one store-level case.  ops: ("E", k, t, a1, a2) / ("X", t, rv)"""
     with_args = rng.random() < 0.6
     cap = rng.choice([32, 48, 48, 64, 64, 80, 96, 128, 256, 4080])
-    nops = rng.randrange(1, 28)
+    nops = rng.randrange(2, 28)       # the first hook call sets the thread up (prepare_shmem_buffer): never the kill op
     ops, stack, t = [], [], 1000
     for _ in range(nops):
         t += rng.randrange(1, 50)
@@ -557,6 +557,254 @@ def live_verdict(ctx, hists, res):
         ctx.broken("generator entered the fork-window class outside the dedicated witness (history %d)" % extra[0])
 
 
+# ------------------------------------------------------------------ (C) end to end
+MAXEV = 4096
+HOWS = {"sigkill": 0, "segv": 1, "abort": 2, "_exit": 3, "execv": 4, "exit": 5, "none": 9}
+
+PROG_HEAD = r"""
+#define _GNU_SOURCE
+#include <stdio.h>
+#include <stdlib.h>
+#include <string.h>
+#include <unistd.h>
+#include <signal.h>
+#include <fcntl.h>
+#include <pthread.h>
+#include <sys/mman.h>
+#include <sys/syscall.h>
+#define NOI __attribute__((no_instrument_function))
+#define MAXEV %(maxev)d
+#define NTH %(nth)d
+struct tlog { volatile unsigned tid; volatile unsigned n; volatile unsigned ev[MAXEV]; };
+static struct tlog *L;
+static __thread struct tlog *my;
+static int kill_th = -1, kill_at = -1, how = 9;
+NOI static void die(void)
+{
+	switch (how) {
+	case 0: kill(getpid(), SIGKILL); break;
+	case 1: *(volatile int *)0 = 1; break;
+	case 2: abort(); break;
+	case 3: _exit(3); break;
+	case 4: { char *a[] = { "/bin/true", 0 }; execv(a[0], a); } break;
+	case 5: exit(4); break;
+	}
+}
+NOI static void LOG(int x, int k)
+{
+	struct tlog *t = my;
+	unsigned n;
+	if (!t) return;
+	n = t->n;
+	if (n >= MAXEV) return;
+	t->ev[n] = x * 256 + k;
+	t->n = n + 1;
+	if (t == &L[kill_th] && (int)n == kill_at) die();
+}
+NOI static void attach(int i) { my = &L[i]; my->tid = syscall(SYS_gettid); }
+"""
+
+PROG_TAIL = r"""
+static void *worker(void *arg)
+{
+	long i = (long)arg;
+	attach(i);
+	root(i);
+	return 0;
+}
+int main(int argc, char **argv)
+{
+	pthread_t th[NTH + 1];
+	long i;
+	int fd = open(argv[1], O_RDWR | O_CREAT | O_TRUNC, 0600);
+	if (fd < 0 || ftruncate(fd, sizeof(struct tlog) * (NTH + 1)) < 0) return 9;
+	L = mmap(0, sizeof(struct tlog) * (NTH + 1), PROT_READ | PROT_WRITE, MAP_SHARED, fd, 0);
+	kill_th = atoi(argv[2]); kill_at = atoi(argv[3]); how = atoi(argv[4]);
+	attach(0);
+	for (i = 1; i <= NTH; i++) pthread_create(&th[i], 0, worker, (void *)i);
+	root(0);
+	for (i = 1; i <= NTH; i++) pthread_join(th[i], 0);
+	root(0);
+	return 0;
+}
+"""
+
+
+def gen_program(rng, nth, big):
+    nf = rng.randrange(4, 9)
+    body = [PROG_HEAD % {"maxev": MAXEV, "nth": nth}]
+    for k in range(nf):
+        body.append("void f%d(int d);" % k)
+    for k in range(nf):
+        callees = [rng.randrange(k + 1, nf) for _ in range(rng.randrange(0, 3))] if k + 1 < nf else []
+        if rng.random() < 0.3:
+            callees.append(k)                 # recursion (bounded by d)
+        calls = " ".join("f%d(d - 1);" % c for c in callees)
+        rep = rng.choice([1, 1, 2, 3]) if big else 1
+        body.append("void f%d(int d) { int i; LOG(0, %d); if (d > 0) for (i = 0; i < %d; i++) { %s } LOG(1, %d); }"
+                    % (k, k, rep, calls, k))
+    roots = ["f%d(%d);" % (rng.randrange(0, max(1, nf // 2)), rng.randrange(2, 5 if big else 4))
+             for _ in range(rng.randrange(1, 4))]
+    body.append("static void root(long i) { %s if (i & 1) f%d(2); }" % (" ".join(roots), rng.randrange(nf)))
+    body.append(PROG_TAIL)
+    return nf, "\n".join(body)
+
+
+def read_log(path, nth):
+    b = open(path, "rb").read()
+    sz = 8 + 4 * MAXEV
+    logs = []
+    for i in range(nth + 1):
+        tid, n = struct.unpack_from("<II", b, i * sz)
+        evs = struct.unpack_from("<%dI" % min(n, MAXEV), b, i * sz + 8)
+        logs.append((tid, [(e >> 8, e & 255) for e in evs]))
+    return logs
+
+
+def func_table(exe, nf):
+    rc, out, _ = sh(["nm", "-S", exe], check=True)
+    tab = {}
+    for l in out.splitlines():
+        k = l.split()
+        if len(k) == 4 and re.fullmatch(r"f\d+", k[3]):
+            tab[int(k[3][1:])] = (int(k[0], 16), int(k[1], 16))
+    return [tab[i] for i in range(nf)]
+
+
+def e2e_run(uft, objdir, prog, work, idx, case):
+    """one traced run that ends the way `case` says; returns a dict of observations"""
+    d = os.path.join(work, "r%d" % idx)
+    shutil.rmtree(d, ignore_errors=True)
+    os.makedirs(d)
+    data, logf = os.path.join(d, "data"), os.path.join(d, "log")
+    cmd = ["timeout", "-s", "KILL", "40", uft, "record", "--no-pager", "--no-event", "--libmcount-path=" + objdir,
+           "-d", data] + case["opts"] + [prog["exe"], logf, str(case["th"]), str(case["at"]), str(HOWS[case["how"]])]
+    t0 = time.time()
+    p = subprocess.run(cmd, capture_output=True, text=True, cwd=d)
+    ob = {"rc": p.returncode, "wall": time.time() - t0, "stderr": p.stderr[-300:]}
+    if p.returncode in (124, 137, -9):
+        ob["timeout"] = True
+        return ob
+    ob["files"] = sorted(os.listdir(data)) if os.path.isdir(data) else []
+    ob["logs"] = read_log(logf, prog["nth"]) if os.path.exists(logf) else []
+    ob["dat"] = {}
+    for tid, _ in ob["logs"]:
+        f = os.path.join(data, "%d.dat" % tid)
+        ob["dat"][tid] = open(f, "rb").read() if (tid and os.path.exists(f)) else b""
+    ob["analysis"] = {}
+    for c in (["replay"], ["report"], ["dump"]):
+        rc, out, err = sh(["timeout", "60", uft] + c + ["--no-pager", "-d", data], timeout=70)
+        ob["analysis"][c[0]] = (rc, (err or "")[-200:])
+    shutil.rmtree(d, ignore_errors=True)
+    return ob
+
+
+def coq_ecase(ftab, log, dat, crash, nest):
+    n8 = len(dat) // 8
+    words = struct.unpack("<%dQ" % n8, dat[:n8 * 8])
+    return ("{| e_ftab := [%s]%%N; e_log := [%s]%%N; e_words := [%s]%%N; e_tail := %d; e_crash := %s; e_nest := %s |}" % (
+        "; ".join("(%d, %d)" % t for t in ftab), "; ".join("(%d, %d)" % e for e in log),
+        "; ".join("%d" % w for w in words), len(dat) % 8, coq.coq_bool(crash), coq.coq_bool(nest)))
+
+
+def run_e2e(ctx, objdir):
+    rng = ctx.rng
+    uft = os.path.join(objdir, "uftrace")
+    work = os.path.join(ctx.scratch, "e2e")
+    os.makedirs(work)
+    progs = []
+    for pi in range(ctx.n(3, 12)):
+        nth = [0, 2, 1, 3][pi % 4]
+        nf, src = gen_program(rng, nth, big=(pi % 3 == 2))
+        c = os.path.join(work, "p%d.c" % pi)
+        open(c, "w").write(src)
+        exe = os.path.join(work, "p%d" % pi)
+        sh(["gcc", "-pg", "-O0", "-no-pie", "-pthread", "-o", exe, c], check=True)
+        full = os.path.join(work, "p%d.full" % pi)
+        sh(["timeout", "20", exe, full, "-1", "-1", "9"], check=True, cwd=work)      # (-pg: gmon.out goes to cwd)
+        progs.append({"exe": exe, "nth": nth, "nf": nf, "ftab": func_table(exe, nf), "full": read_log(full, nth),
+                      "src": src, "id": pi})
+    cases = []
+    hows = ["sigkill", "segv", "abort", "_exit", "execv", "exit", "finish"]
+    per = ctx.n(14, 60)
+    for pr in progs:
+        for j in range(per):
+            how = hows[j % len(hows)]
+            th = rng.randrange(pr["nth"] + 1)
+            total = len(pr["full"][th][1])
+            if total == 0:
+                th, total = 0, len(pr["full"][0][1])
+            at = rng.choice([0, 1, total - 1, total - 2, rng.randrange(total), rng.randrange(total)]) % max(total, 1)
+            opts = rng.choice([[], [], ["--no-libcall"], ["-b", "4k"], ["-b", "4k", "--no-libcall"]])
+            case = {"prog": pr["id"], "how": how, "th": th, "at": at, "opts": list(opts)}
+            if how == "finish":
+                k = pr["full"][th][1][at][1]
+                case.update({"how": "none", "finish": k, "th": -1, "at": -1, "opts": opts + ["-T", "f%d@finish" % k]})
+            cases.append(case)
+    t0 = time.time()
+    with concurrent.futures.ThreadPoolExecutor(max_workers=6) as ex:
+        obs = list(ex.map(lambda ic: e2e_run(uft, objdir, progs[ic[1]["prog"]], work, ic[0], ic[1]), enumerate(cases)))
+    ctx.log("end-to-end: %d traced runs in %.1fs" % (len(cases), time.time() - t0))
+    ecases, owner = [], []
+    for ci, (case, ob) in enumerate(zip(cases, obs)):
+        pr = progs[case["prog"]]
+        rj = {"line": "e2e", "case": case, "program": pr["src"]}
+        how = "finish" if "finish" in case else case["how"]
+        tags = ["e2e:how=" + how, "e2e:threads=%d" % (pr["nth"] + 1)] + ["e2e:opt=" + o for o in case["opts"] if o.startswith("-") and o != "-T"]
+        if ob.get("timeout"):
+            ctx.violation("C04 violated: `uftrace record` did not terminate after the tracee %s" % how, rj, True)
+            ctx.case(key=("e2e", ci, repr(case)), tags=tags + ["e2e:record-timeout"])
+            continue
+        need = ["info", "task.txt"]
+        files = ob["files"]
+        missing = [n for n in need if n not in files]
+        if not any(f.startswith("sid-") and f.endswith(".map") for f in files):
+            missing.append("sid-*.map")
+        if not any(f.endswith(".sym") for f in files):
+            missing.append("*.sym")
+        if missing:
+            ctx.violation("C04 violated: data directory incomplete after the tracee %s: missing %s" % (how, missing),
+                          dict(rj, files=files, stderr=ob["stderr"]), True)
+        total_bytes = sum(len(v) for v in ob["dat"].values())
+        for cmdn, (rc, err) in ob["analysis"].items():
+            if rc != 0 and total_bytes == 0 and "No data available" in err:
+                # not a single record reached a data file: the readers refuse a directory without *.dat by
+                # design (utils/data-file.c open_data_file: "check there are data files actually")
+                if "e2e:empty-trace(no-dat,readers-say-no-data)" not in tags:
+                    tags.append("e2e:empty-trace(no-dat,readers-say-no-data)")
+                continue
+            if rc != 0:
+                ctx.violation("C04 violated: `uftrace %s` rejects the directory left after the tracee %s (rc=%d): %s"
+                              % (cmdn, how, rc, err), rj, True)
+        nrec = 0
+        for ti, (tid, log) in enumerate(ob["logs"]):
+            ref = pr["full"][ti][1] if how in ("finish",) else log
+            crash = how in ("segv", "abort") and ti == case["th"]
+            dat = ob["dat"].get(tid, b"")
+            nrec += len(dat) // 16
+            ecases.append(coq_ecase(pr["ftab"], ref, dat, crash, how != "execv"))
+            owner.append((ci, ti, tid))
+        if nrec > 254:
+            tags.append("e2e:buffer-switched")
+        ctx.case(key=("e2e", pr["src"], repr(case)), nontrivial=nrec > 0, tags=tags, size=nrec,
+                 sample={"e2e_case": case, "records": nrec} if ci == 0 else None)
+    if not ecases:
+        return
+    defs = "Definition ecases : list ecase := [\n%s\n].\n" % ";\n".join(ecases)
+    res = coq.run_cases(ctx, "cases_e2e", PRE, defs, [("violations", "bad_indices ok_e2e ecases 0")])
+    if res is None:
+        return
+    for i in coq.parse_nat_list(res["violations"])[:3]:
+        ci, ti, tid = owner[i]
+        case, ob = cases[ci], obs[ci]
+        how = "finish" if "finish" in case else case["how"]
+        ctx.violation("C04 violated (end to end): %d.dat (thread %d) left after the tracee %s is not made of whole records "
+                      "forming a prefix of what the thread executed%s" % (
+                          tid, ti, how, " / misses open calls of the crashing thread" if how in ("segv", "abort") else ""),
+                      {"line": "e2e", "case": case, "program": progs[case["prog"]]["src"], "thread": ti,
+                       "log": ob["logs"][ti][1][-40:], "dat_tail_hex": ob["dat"][tid][-160:].hex()}, True)
+
+
 # ------------------------------------------------------------------ entry points
 def common_meta(ctx):
     ctx.rule = ("(A) store level: a case = one scripted call history (1-27 hook calls, payload specs, buffer "
@@ -577,7 +825,8 @@ def common_meta(ctx):
     ctx.assume = [
         "shm allocation never fails and no record is lost (C03 covers LOST); no filters/triggers besides argument "
         "specs (C05); one thread per data file in the model (threads are exercised end to end only)",
-        "a record fits into an empty buffer (the code does not re-check after switching buffers)",
+        "a record fits into an empty buffer (the code does not re-check after switching buffers); the thread's "
+        "set-up (prepare_shmem_buffer: two buffers, REC_START 0) is complete before the first modelled step",
         "stores become visible to the recorder in program order (x86-TSO; the recorder reads after the tracee died)",
         "the kernel delivers POLLHUP / SIGCHLD and /proc/<tid>/stat eventually shows every dead task (oracle `dead`)",
         "kill instants are instruction boundaries observed through (size, RECORDING bit); instants inside one "
@@ -591,6 +840,7 @@ def run(ctx):
     objdir = build.get_build("plain", ctx.log)
     rec_exe = run_store(ctx, objdir)
     run_live(ctx, rec_exe)
+    run_e2e(ctx, objdir)
 
 
 def replay(ctx, obj):
